@@ -80,6 +80,14 @@ def check_injection(ctx, func, cls, calls, lc, rule='R1'):
     return c
 
 
+def terminate_waits_for_ack(ctx, cls, chan):
+    """the resolved terminate() polls / reads the parent end of the control pipe before it releases the child"""
+    _, term = cls.resolve('terminate')
+    if term is None:
+        return False
+    return any(last_attr(c) in ('poll', 'get', 'recv') and (receiver(c) or '') == f'self.{chan}.parent_end' for c in calls_in(term.node))
+
+
 def check_grace_period(ctx):
     """R2: on the server side of the remote terminate the graceful window is the time the caller granted (`timeout`, which is how the control thread
     passes it on) - never `remote_timeout`, which still has its default there"""
@@ -241,6 +249,16 @@ def check_pipe_chain(ctx, cls, lc, func, calls, stmts, region='parent'):
     ctx.check('R1', f'{cls.name}: a received {token!r} always reaches the injection in {cf.short}', p is None and bool(recv_nodes), cf.short,
               'token-not-injected', f'{cf.short} can finish after receiving {token!r} without raising in the target thread',
               where=loc(cf, recvs[0]), path=path_str(p or []))
+    # the acknowledgement follows the injection: the parent waits (poll) for the control thread to close its end of the control pipe before it releases
+    # the child's work loop; an end closed before the exception is pending lets the release token overtake it - an idle persistent worker then leaves its
+    # loop gracefully and reports success for a terminate that was answered True
+    closers = [n for n in g.nodes if n.stmt is not None and n.part == 'eval' and any(last_attr(c) == 'close' and (receiver(c) or '') == f'self.{chan}.child_end' for c in n.calls())]
+    if closers and terminate_waits_for_ack(ctx, cls, chan):
+        p2 = g.find_path(recv_nodes, lambda n: n in closers, edge_ok=edge_ok, node_ok=lambda n: n.id not in inj_ids)
+        ctx.check('R1', f'{cls.name}: the control thread closes its end of the control pipe (the acknowledgement terminate() waits for) only after the injection', p2 is None, cf.short,
+                  'acknowledged-before-injection', f'{cf.short} can close self.{chan}.child_end - which terminate() takes as the acknowledgement before it releases the work loop - before '
+                  'foreign_raise has made the exception pending: the release token can reach an idle persistent worker first, it ends gracefully and reports has_error False',
+                  where=loc(cf, closers[0].stmt), path=path_str(p2 or []))
     # the receive must not be in a loop (the injector handles exactly one message - the landing-region bound relies on it)
     in_loop = any(isinstance(l, (ast.While, ast.For)) and any(x is recvs[0] for x in ast.walk(l)) for l in walk_local(cf.node))
     ctx.ob('R1', f'{cls.name}: control thread handles exactly one message', not in_loop)
